@@ -34,6 +34,7 @@
 // steps:  Create(t,c) CreateB(t,c) Complete(t,f) New(t) Del(t) Store(t) Teardown
 //         Prepare CreateP(t,c,i)    stack_storage: a storage constructed and given its alloca block ahead of use
 //         CreateThrow(t,c)          the factory of the attached object throws (always with the plain bodies)
+//         CreateFail(t,c)           the operator new call made by the policy's alloc throws std::bad_alloc (plain bodies)
 //         DtorBegin(t,f) .. DtorEnd(t,f)   frame f completes; the destructor of its attached object executes the steps in
 //                                   between (creations and completions of other frames), the state is compared inside
 //                                   the destructor (DtorBegin, every step in between) and after the completion (DtorEnd)
@@ -99,6 +100,7 @@ static std::size_t lead[NSLOT];  // the block begins that many bytes behind the 
 static std::size_t want_lead = 0;   // lead of the next block taken (set by the allocator of the buffer's vector)
 static long news = 0, dels = 0, dblfree = 0, overrun = 0, badptr = 0, exhausted = 0;
 static bool alloc_marks = false;           // operator new/delete calls are scheduling points
+static bool fail_next = false;             // the next operator new call of the library throws std::bad_alloc (CreateFail)
 static thread_local int lib_depth = 0;     // >0: inside a library call
 static char events[64];                    // 'N' / 'D' in order (probe)
 static int nevents = 0;
@@ -162,6 +164,7 @@ inline void reset() {
     for (int i = 0; i < NSLOT; i++) if (req[i]) { ARENA_UNPOISON(base(i + 1), SLOTSZ); memset(base(i + 1), 0xDD, SLOTSZ); ARENA_POISON(base(i + 1), SLOTSZ); req[i] = 0; }
     for (int i = 0; i < NSLOT; i++) lead[i] = 0;
     want_lead = 0;
+    fail_next = false;
     news = dels = dblfree = overrun = badptr = exhausted = 0;
     nevents = 0;
 }
@@ -180,6 +183,7 @@ void *operator new(std::size_t sz) {
         return p;
     }
     if (arena::alloc_marks && vsched::self()) vsched::mark("new");
+    if (arena::fail_next) { arena::fail_next = false; arena::want_lead = 0; throw std::bad_alloc(); }
     return arena::take(sz);
 }
 void *operator new[](std::size_t sz) { return operator new(sz); }
@@ -843,6 +847,21 @@ struct World {
         throw_next = false;
     }
 
+    // the policy's own operator new call throws: no frame, std::bad_alloc must reach us, nothing else may change
+    void create_fail_on(A &st, FrameRef &ref, int c) {
+        arena::fail_next = true;
+        try {
+            lib_scope ls;
+            auto co = make_body<A, EX>(0, c, st, ref);
+            note("allocation-failure-lost");
+        } catch (const std::bad_alloc &) {
+            nthrown++;
+        } catch (...) {
+            note("allocation-failure-replaced");
+        }
+        if (arena::fail_next) { arena::fail_next = false; note("creation-did-not-allocate"); }
+    }
+
     void do_complete(int, int f) {
         FrameRec &r = frames[f - 1];
         if constexpr (EX) {
@@ -1227,10 +1246,11 @@ struct World {
                 }
                 if (ref.r) { ref.r->abuf = pp.ab; ref.r->asize = pp.asz; ref.r->guard = pp.guard; ref.r->prep = i; }
             }
-        } else if (st.name == "Create" || st.name == "CreateB" || st.name == "CreateThrow") {
+        } else if (st.name == "Create" || st.name == "CreateB" || st.name == "CreateThrow" || st.name == "CreateFail") {
             int c = st.iarg(1);
             int o = st.name == "CreateB" ? 2 : 1;
             if (c < 1 || c > 3 || t < 0 || t >= nthr || (o == 2 && !movable)) { cur_rep->error(k, "bad arguments"); { stop = true; return; } }
+            if (st.name == "CreateFail" && mt) { cur_rep->error(k, "sequential only"); stop = true; return; }
             if (st.name == "CreateThrow" && (!EX || mt)) { cur_rep->error(k, "no factory"); { stop = true; return; } }
             if (mt) {
                 if (pend_of(t) != "idle") { cur_rep->diverge(k, "thread is not idle: " + pend_of(t) + " got=" + project(nthr).dump()); { stop = true; return; } }
@@ -1258,6 +1278,7 @@ struct World {
                 cur_abuf = ab;
                 cur_asize = asz;
                 if (thr) create_throw_on(sst, ref, c);
+                else if (st.name == "CreateFail") create_fail_on(sst, ref, c);
                 else {
                     lib_scope ls;
                     bool done = false;
@@ -1271,6 +1292,7 @@ struct World {
             } else {
                 if (!stor[o - 1]) { cur_rep->diverge(k, "storage object does not exist got=" + project(nthr).dump()); { stop = true; return; } }
                 if (st.name == "CreateThrow") { FrameRef &ref = new_ref(0, c, o); create_throw_on(*stor[o - 1], ref, c); }
+                else if (st.name == "CreateFail") { FrameRef &ref = new_ref(0, c, o); create_fail_on(*stor[o - 1], ref, c); }
                 else do_create(0, c, o);
             }
         } else if (st.name == "DtorBegin") {
@@ -1355,7 +1377,7 @@ struct World {
         F = FF[fam];
         // (see create_throw_on; a coroutine of the callback families completed inside a destructor is only queued: the
         // thread's coro_queue is busy with the completion that runs the destructor)
-        for (auto &stp : sc.steps) if (stp.name == "CreateThrow" || stp.name == "DtorBegin") fam = 0;
+        for (auto &stp : sc.steps) if (stp.name == "CreateThrow" || stp.name == "CreateFail" || stp.name == "DtorBegin") fam = 0;
         F = FF[fam];
         if (fam >= 2) kill = "finish";
         warm_thread();
